@@ -18,6 +18,17 @@ class Unmodelled(Exception):
     """Construct deliberately not modelled (fuzzy): the case is skipped, never judged."""
 
 
+def _ci(fn, *strs):
+    """`fn` over strings with letter case ignored.  The documentation says "case-insensitive" and no more: where lower-casing, upper-casing and
+    case folding disagree about the outcome (ß / SS, ſ / s, İ, ligatures, final sigma) it does not say which is meant, so the case is not modelled."""
+    if all(x.isascii() for x in strs):
+        return fn(*[x.lower() for x in strs])
+    rs = {repr(fn(*[m(x) for x in strs])) for m in (str.lower, str.upper, str.casefold)}
+    if len(rs) > 1:
+        raise Unmodelled('the case mapping decides')
+    return fn(*[x.lower() for x in strs])
+
+
 def _norm_text(x):
     return re.sub(r"[\s\-'.*]+", '', x.upper())
 
@@ -123,9 +134,9 @@ class Ref:
             o = type(op)
             both = isinstance(l, str) and isinstance(r, str)
             if o is ast.Eq:
-                res = (l.lower() == r.lower()) if both else l == r
+                res = _ci(lambda a, b: a == b, l, r) if both else l == r
             elif o is ast.NotEq:
-                res = (l.lower() != r.lower()) if both else l != r
+                res = _ci(lambda a, b: a != b, l, r) if both else l != r
             elif o is ast.Lt:
                 res = l < r
             elif o is ast.LtE:
@@ -135,9 +146,9 @@ class Ref:
             elif o is ast.GtE:
                 res = l >= r
             elif o is ast.In:
-                res = (l.lower() in r.lower()) if both else l in r
+                res = _ci(lambda a, b: a in b, l, r) if both else l in r
             elif o is ast.NotIn:
-                res = (l.lower() not in r.lower()) if both else l not in r
+                res = _ci(lambda a, b: a not in b, l, r) if both else l not in r
             else:
                 raise RefError('cmp')
             if not res:
@@ -248,12 +259,12 @@ class Ref:
 
         if f == 'contains':
             t, (p,) = tp(1)
-            return p.lower() in t.lower()
+            return _ci(lambda pp, tt: pp in tt, p, t)
         if f == 'startswith':
             t, (p,) = tp(1)
-            return t.lower().startswith(p.lower())
+            return _ci(lambda pp, tt: tt.startswith(pp), p, t)
         if f == 'anyof':
-            return any(p.lower() in desc.lower() for p in a)
+            return any([_ci(lambda pp, tt: pp in tt, p, desc) for p in a])
         if f == 'regex':
             t, (p,) = tp(1)
             try:
@@ -292,10 +303,10 @@ class Ref:
             return str(a[0]).lower()
         if f == 'strip_prefix':
             s, p = str(a[0]), str(a[1])
-            return s[len(p):] if s.lower().startswith(p.lower()) else s
+            return s[len(p):] if _ci(lambda ss, pp: ss.startswith(pp), s, p) else s
         if f == 'strip_suffix':
             s, p = str(a[0]), str(a[1])
-            return s[:len(s) - len(p)] if s.lower().endswith(p.lower()) else s
+            return s[:len(s) - len(p)] if _ci(lambda ss, pp: ss.endswith(pp), s, p) else s
         if f == 'abs':
             return abs(*a)
         if f == 'round':
